@@ -22,7 +22,7 @@ func Strings(before, after string) []Edit {
 		// TODO(adonovan): opt: specialize diffASCII for strings.
 		return diffASCII([]byte(before), []byte(after))
 	}
-	return diffRunes([]rune(before), []rune(after))
+	return diffRunes(before, after)
 }
 
 // Bytes computes the differences between two byte slices.
@@ -35,7 +35,7 @@ func Bytes(before, after []byte) []Edit {
 	if isASCIIByte(before) && isASCIIByte(after) {
 		return diffASCII(before, after)
 	}
-	return diffRunes(runes(before), runes(after))
+	return diffRunes(string(before), string(after))
 }
 
 func diffASCII(before, after []byte) []Edit {
@@ -49,43 +49,45 @@ func diffASCII(before, after []byte) []Edit {
 	return res
 }
 
-func diffRunes(before, after []rune) []Edit {
-	diffs := lcs.DiffRunes(before, after)
+func diffRunes(before, after string) []Edit {
+	b, boffs := decodeRunes(before)
+	a, aoffs := decodeRunes(after)
+	diffs := lcs.DiffRunes(b, a)
 
 	// The diffs returned by the lcs package use indexes
 	// into whatever slice was passed in.
-	// Convert rune offsets to byte offsets.
+	// Convert rune offsets to byte offsets of the original texts:
+	// a byte that is not valid UTF-8 occupies one byte, not the three
+	// of the U+FFFD it decodes to.
 	res := make([]Edit, len(diffs))
-	lastEnd := 0
-	utf8Len := 0
 	for i, d := range diffs {
-		utf8Len += runesLen(before[lastEnd:d.Start]) // text between edits
-		start := utf8Len
-		utf8Len += runesLen(before[d.Start:d.End]) // text deleted by this edit
-		res[i] = Edit{start, utf8Len, string(after[d.ReplStart:d.ReplEnd])}
-		lastEnd = d.End
+		res[i] = Edit{boffs[d.Start], boffs[d.End], after[aoffs[d.ReplStart]:aoffs[d.ReplEnd]]}
 	}
 	return res
 }
 
-// runes is like []rune(string(bytes)) without the duplicate allocation.
-func runes(bytes []byte) []rune {
-	n := utf8.RuneCount(bytes)
-	runes := make([]rune, n)
-	for i := 0; i < n; i++ {
-		r, sz := utf8.DecodeRune(bytes)
-		bytes = bytes[sz:]
-		runes[i] = r
-	}
-	return runes
-}
+// invalidRune + b stands for the byte b where it is not part of a valid
+// UTF-8 encoding, so that different invalid bytes compare different
+// (they all decode to utf8.RuneError).
+const invalidRune = utf8.MaxRune + 1
 
-// runesLen returns the length in bytes of the UTF-8 encoding of runes.
-func runesLen(runes []rune) (len int) {
-	for _, r := range runes {
-		len += utf8.RuneLen(r)
+// decodeRunes returns the runes of text and the byte offset at which
+// each one starts; offs[len(runes)] is len(text).
+func decodeRunes(text string) (runes []rune, offs []int) {
+	n := utf8.RuneCountInString(text)
+	runes = make([]rune, 0, n)
+	offs = make([]int, 0, n+1)
+	for i := 0; i < len(text); {
+		r, sz := utf8.DecodeRuneInString(text[i:])
+		if r == utf8.RuneError && sz == 1 {
+			r = invalidRune + rune(text[i])
+		}
+		runes = append(runes, r)
+		offs = append(offs, i)
+		i += sz
 	}
-	return len
+	offs = append(offs, len(text))
+	return runes, offs
 }
 
 // isASCII reports whether s contains only ASCII.
